@@ -47,6 +47,7 @@ package jet
 //@   modifies ghost CM, ghost NL
 //@   nopanic
 //@   ensures err == nil ==> t != nil
+//@   assumes [handed-out-templates-are-completely-parsed] err == nil ==> TplOK(t)
 //@   callsite (*Set).getSiblingTemplate 0 requires [gettemplate-resolves-against-root] {C15} siblingPath == "/" && cacheAfterParsing && templatePath == caller.templatePath
 
 //@ func (*Set).getSiblingTemplate
@@ -55,6 +56,7 @@ package jet
 //@   modifies ghost CM, ghost NL
 //@   nopanic
 //@   ensures err == nil ==> t != nil
+//@   assumes [handed-out-templates-are-completely-parsed] err == nil ==> TplOK(t)
 //@   callsite (*Set).getTemplate 0 requires [loader-paths-are-canonical] {C15} Canon(templatePath) && cacheAfterParsing == caller.cacheAfterParsing
 //@   callsite (*Set).getTemplate 0 requires [relative-names-resolve-against-the-referring-directory] {C15} ite(IsAbsP(caller.templatePath), templatePath == CleanP(caller.templatePath), templatePath == JoinP2(DirP(caller.siblingPath), caller.templatePath))
 
